@@ -294,13 +294,16 @@ def forall(lo, hi, fn, hints=(), as_hypothesis=None):
         if as_hypothesis is not None:
             q.hyp_alt = as_hypothesis()
         return q
+    parts = []
     for k in range(lo, hi):
         r = fn(k)
         if isinstance(r, QForall):
             raise TypeError('symbolic body under a concrete quantifier')
-        if not r:
+        if is_sym(r):
+            parts.append(r)         # finitely many symbolic instances: their conjunction
+        elif not r:
             return False
-    return True
+    return And(*parts) if parts else True
 
 
 def forall_sym(lo, hi, fn, hints=()):
@@ -529,3 +532,88 @@ def list_join(sep, lst):
             return join_list(sep, h.fields['comps'][0][0], h.fields['len'].t)
         return cat(*([''] + [x for i, it in enumerate(lst.items_spec()) for x in ([sep] if i else []) + [it]]))
     return sep.join(lst.items)
+
+
+# ---- compiled regular expressions as values (C20) --------------------------------------------------------------
+if z3 is not None:
+    ReCompile = z3.Function('ReCompile', z3.StringSort(), z3.BoolSort(), z3.IntSort(), Val)   # (pattern text, is bytes, flags)
+    RePatText = z3.Function('RePatText', Val, z3.StringSort())
+    RePatIsBytes = z3.Function('RePatIsBytes', Val, z3.BoolSort())
+    ReFlags = z3.Function('ReFlags', Val, z3.IntSort())
+    BitAnd = z3.Function('bitand', z3.IntSort(), z3.IntSort(), z3.IntSort())
+
+
+def _to_kind(text, is_bytes):
+    if is_bytes and isinstance(text, str):
+        return text.encode('utf-8')
+    if not is_bytes and isinstance(text, bytes):
+        return text.decode('utf-8')
+    return text
+
+
+def re_compile(text, is_bytes, flags):
+    """re.compile(text, flags): a function of (text, string type, flags); equal arguments select the same occurrences"""
+    if not (is_sym(text) or is_sym(is_bytes) or is_sym(flags)) and (z3 is None or isinstance(text, (bytes, str))):
+        import re
+        try:
+            return re.compile(_to_kind(text, is_bytes), flags)
+        except (ValueError, UnicodeError, re.error, TypeError):
+            return None
+    t = text if is_sym(text) else z3.StringVal(to_z3_str(text))
+    b = is_bytes if is_sym(is_bytes) else z3.BoolVal(bool(is_bytes))
+    f = flags if is_sym(flags) else z3.IntVal(int(flags))
+    return ReCompile(t, b, f)
+
+
+def re_pat_text(r):
+    return RePatText(r) if is_sym(r) else getattr(r, 'pattern', None)
+
+
+def re_is_bytes(r):
+    return RePatIsBytes(r) if is_sym(r) else isinstance(getattr(r, 'pattern', None), bytes)
+
+
+def re_flags(r):
+    return ReFlags(r) if is_sym(r) else getattr(r, 'flags', 0)
+
+
+def bit_and(x, mask):
+    if is_sym(x):
+        return BitAnd(x, z3.IntVal(mask))
+    return x & mask
+
+
+def utf8_transcode(text, to_bytes):
+    """pattern text carried to the other string type (UTF-8)"""
+    if is_sym(text):
+        f = z3.Function('encode_utf8' if to_bytes else 'decode_utf8', z3.StringSort(), z3.StringSort())
+        return f(text)
+    try:
+        return _to_kind(text, to_bytes)
+    except UnicodeError:
+        return None
+
+
+class Union:
+    """spec view of a VUnion"""
+    def __init__(self, tag, alts):
+        self.tag, self.alts = tag, dict(alts)
+        self.labels = [a for a, _ in alts]
+
+    def is_(self, label):
+        return self.tag == self.labels.index(label)
+
+    def val(self, label):
+        return self.alts[label]
+
+
+class ConcUnion:
+    """the same view of a concrete object: it is the alternative its own type says"""
+    def __init__(self, label, value):
+        self.label, self.value = label, value
+
+    def is_(self, label):
+        return self.label == label
+
+    def val(self, label):
+        return self.value if label == self.label else None
